@@ -1,15 +1,20 @@
 import ColaVerif.DriverLib
 import ColaVerif.Model.Inv
+import ColaVerif.Lemmas.InvInstances
 
 /-!
 Line-protocol driver of C06 (`cola.linalg.inv` / `solve`).  One JSON case per input line:
 
-* `{"id", "call":"inv", "alg": "omitted"|"Auto"|"LU"|"Cholesky"|"CG"|"GMRES"|"Other", "op": expr,
+* `{"id", "call":"inv", "alg": "omitted"|"Auto"|"LU"|"Cholesky"|"CG"|"GMRES"|"Other",
+   "opts": {"tol": {"q":[num,den]} | null, "max_iters": n | null}   (the keyword arguments the algorithm object
+   was built with; absent = none), "op": expr,
    "x": rows of the right-hand side (n × k), "xl": rows of the left operand (k × n)}` →
   the CODE model (`Inv.invRule` instantiated with exact Gaussian-rational factorisations / solver):
-  kind tree, shape, dtype, `to_dense`, `B @ x`, `xl @ B`, `B.T.to_dense()`, and the SPEC (the exact
+  kind tree, shape, dtype, `to_dense`, `B @ x`, `xl @ B`, `B.T.to_dense()`, `solvers` = the solver objects inside
+  the result with their options (`InvOp.solvers`; `C06_solver_options`), and the SPEC (the exact
   inverse of `den A` by Gauss–Jordan elimination, checked by multiplication in the driver);
-* `{"id", "call":"auto", "psd": bool, "rows", "cols"}` → the Auto decision table;
+* `{"id", "call":"auto", "psd": bool, "rows", "cols", "opts"}` → the Auto decision table: the selected algorithm
+  and, for CG / GMRES, the options of the object `Auto(**opts)` builds (`autoChoice`);
 * `{"id", "call":"skel", "alg", "op": expr}` → rule selection only (`Inv.invRule` with a parameter set
   whose factorisations / solver compute nothing): kind tree, shape, dtype of the result or the
   predicted error.  Used by the float-side stream of c06.py (n up to 200, payloads omitted: the
@@ -117,7 +122,43 @@ def solveExact (_ : Alg) (A : Op GRat) (b : Nat) (X : MatF GRat) : MatV GRat :=
   | some Ai => forceV A.rows b (mmul A.rows (mxF Ai) X)
   | none => MatV.of zeroM
 
-def EX : Ext GRat := { recip := GRat.inv, chol := cholExact, lu := luExact, solve := solveExact }
+/-- what the driver runs: the exact (checked) Cholesky / LU of `Model/DecompExec.lean` — for which
+`Inv.luContract_gExt` / `Inv.cholContract_gExt` (Lemmas/InvInstances.lean) PROVE the contracts of C06 on
+every input on which they return with non-zero diagonals (`contractsOk` below evaluates exactly these
+side conditions) — and the Gauss–Jordan solver.  (`luExact` / `cholExact` above are kept as an
+independent second implementation: `lapackAgree` compares the two on every LAPACK node.) -/
+def EX : Ext GRat := gExtWith solveExact
+
+def winEqG (n : Nat) (a b : MatF GRat) : Bool :=
+  (List.range n).all fun i => (List.range n).all fun j => a i j == b i j
+
+/-- the hypotheses of `luContract_gExt` / `cholContract_gExt` at one LAPACK node -/
+def nodeContractOk (alg : Alg) (A : Op GRat) : Bool :=
+  let n := A.rows
+  match effAlg alg (A.isa .psd) (A.rows * A.cols) with
+  | .lu => match GDecomp.gluDense n A.td.f with
+    | some (_, _, U) => (List.range n).all fun i => U i i != 0
+    | none => false
+  | .chol => match GDecomp.gcholDense n A.td.f with
+    | some L => ((List.range n).all fun i => L i i != 0) &&
+        ((List.range n).all fun i => (List.range n).all fun j => A.td.f i j == star (A.td.f j i))
+    | none => false
+  | _ => true
+
+/-- the two exact implementations agree at one LAPACK node -/
+def nodeAgree (alg : Alg) (A : Op GRat) : Bool :=
+  let n := A.rows
+  match effAlg alg (A.isa .psd) (A.rows * A.cols) with
+  | .lu =>
+    let r := EX.lu n A.td.f
+    let r' := luExact n A.td.f
+    r.1 == r'.1 && winEqG n r.2.1.f r'.2.1.f && winEqG n r.2.2.f r'.2.2.f
+  | .chol =>
+    -- `cholExact` leaves zeros where a pivot has no rational root; `gcholDense` then returns nothing
+    match GDecomp.gcholDense n A.td.f with
+    | some L => winEqG n L (cholExact n A.td.f).f
+    | none => true
+  | _ => true
 
 /-- structure-only parameters (`"call":"skel"`): no factorisation, no solve -/
 def SK : Ext GRat :=
@@ -169,7 +210,7 @@ def zeroColumn (n b : Nat) (X : MatF GRat) : Bool :=
   (List.range b).any fun j => (List.range n).all fun i => X i j == 0
 
 def badZeroCol (A : Op GRat) (alg : Alg) (b : Nat) (X : MatF GRat) : Bool :=
-  alg == .gmres && zeroColumn A.cols b X
+  alg.isGMRES && zeroColumn A.cols b X
 
 /-- grade of `x` with respect to `D` (dimension of the Krylov space): number of linearly independent
 vectors among `x, D x, D² x, …` (exact elimination) -/
@@ -195,7 +236,7 @@ exhausted before step `n` (exact breakdown: an eigenvector, a batch member that 
 keeps being stepped with rounding noise; the outcome of the GMRES solve is then unpredictable
 (usually fine, sometimes LinAlgError / garbage) -/
 def badBreakdown (A : Op GRat) (alg : Alg) (b : Nat) (X : MatF GRat) : Bool :=
-  alg == .gmres && (List.range b).any fun j =>
+  alg.isGMRES && (List.range b).any fun j =>
     !((List.range A.cols).all fun i => X i j == 0) && gradeOf A.cols A.den.f (fun i => X i j) < A.cols
 
 /-! ## output -/
@@ -222,14 +263,43 @@ partial def usesLapack (alg : Alg) (top : Op GRat) : Op GRat → Bool
 where lap (A : Op GRat) : Bool :=
   match effAlg alg (A.isa .psd) (A.rows * A.cols) with | .lu => true | .chol => true | _ => false
 
+/-- a predicate at every node that falls to an algorithm rule (same traversal as `usesLapack`) -/
+partial def atAlgNodes (f : Op GRat → Bool) (alg : Alg) (top : Op GRat) : Op GRat → Bool
+  | .annot _ A => atAlgNodes f alg top A
+  | .eye .. => true | .scalar .. => true | .perm .. => true | .diag .. => true | .tri .. => true
+  | .prod Ms => if allSquare Ms then Ms.all (fun M => atAlgNodes f alg M M) else f top
+  | .bdiag Ms _ => Ms.all (fun M => atAlgNodes f alg M M)
+  | .kron Ms => Ms.all (fun M => atAlgNodes f alg M M)
+  | _ => f top
+
 def isEye (n : Nat) (m : MatF GRat) : Bool :=
   (List.range n).all fun i => (List.range n).all fun j => m i j == (if i = j then 1 else 0)
 
-def parseAlg (s : String) : E Alg :=
+/-- the keyword arguments of the algorithm object: `{"tol": q | null, "max_iters": n | null}` -/
+def parseOpts (j : Json) : E Opts := do
+  let tol ← match j.getObjVal? "tol" with
+    | .ok .null => pure none
+    | .ok t => do pure (some (← jQ t))
+    | .error _ => pure none
+  let mi ← match j.getObjVal? "max_iters" with
+    | .ok .null => pure none
+    | .ok t => do pure (some (← jNat t))
+    | .error _ => pure none
+  pure { tol := tol, maxIters := mi }
+
+/-- `CG(**d)` / `GMRES(**d)` / `Auto(**d)`: the object the caller built -/
+def parseAlg (s : String) (d : Opts) : E Alg :=
   match s with
-  | "omitted" => pure .auto | "Auto" => pure .auto | "LU" => pure .lu | "Cholesky" => pure .chol
-  | "CG" => pure .cg | "GMRES" => pure .gmres | "Other" => pure .other
+  | "omitted" => pure (.auto {}) | "Auto" => pure (.auto d) | "LU" => pure .lu | "Cholesky" => pure .chol
+  | "CG" => pure (.cg (.ofDict d)) | "GMRES" => pure (.gmres (.ofDict d)) | "Other" => pure .other
   | _ => throw s!"alg {s}"
+
+def showSolver (a : Alg) : String :=
+  match a.kopts with
+  | some o => s!"[\"{a.toString}\",\"{o.tol.num}/{o.tol.den}\",{o.maxIters}]"
+  | none => s!"[\"{a.toString}\",null,null]"
+
+def showSolvers (B : InvOp GRat) : String := "[" ++ ",".intercalate (B.solvers.map showSolver) ++ "]"
 
 def handle (j : Json) : E String := do
   let id := (j.getObjVal? "id").toOption.getD .null
@@ -238,16 +308,18 @@ def handle (j : Json) : E String := do
     let psd ← jBool ((j.getObjVal? "psd").toOption.getD .null)
     let r ← jNat ((j.getObjVal? "rows").toOption.getD .null)
     let c ← jNat ((j.getObjVal? "cols").toOption.getD .null)
-    return "{\"id\":" ++ id.compress ++ ",\"alg\":\"" ++ (autoChoice psd (r * c)).toString ++ "\"}"
+    let d ← parseOpts ((j.getObjVal? "opts").toOption.getD .null)
+    return "{\"id\":" ++ id.compress ++ ",\"alg\":\"" ++ (autoChoice d psd (r * c)).toString ++ "\",\"solver\":" ++ showSolver (autoChoice d psd (r * c)) ++ "}"
   if call != "inv" && call != "skel" then throw s!"unknown call {call}"
   let A ← jOp ((j.getObjVal? "op").toOption.getD .null)
-  let alg ← parseAlg (← jStr ((j.getObjVal? "alg").toOption.getD .null))
+  let opts ← parseOpts ((j.getObjVal? "opts").toOption.getD .null)
+  let alg ← parseAlg (← jStr ((j.getObjVal? "alg").toOption.getD .null)) opts
   if call == "skel" then
     let hd := s!"\"id\":{id.compress},\"rows\":{A.rows},\"cols\":{A.cols},\"lapack\":{usesLapack alg A A}"
     match invRule SK alg A with
     | .error e => return ("{" ++ hd ++ ",\"code\":{\"err\":\"" ++ e ++ "\"}}")
     | .ok B =>
-      return ("{" ++ hd ++ s!",\"code\":\{\"rows\":{B.rows},\"cols\":{B.cols},\"dtype\":\"{B.dtype.toString}\",\"skel\":{invSkel B},\"direct\":{B.direct}}}")
+      return ("{" ++ hd ++ s!",\"code\":\{\"rows\":{B.rows},\"cols\":{B.cols},\"dtype\":\"{B.dtype.toString}\",\"skel\":{invSkel B},\"solvers\":{showSolvers B},\"direct\":{B.direct}}}")
   let n := A.rows
   let pre := s!"\"id\":{id.compress},{header A},\"struct\":{hasStructRule A},\"lapack\":{usesLapack alg A A}"
   let xm ← jMat ((j.getObjVal? "x").toOption.getD (.arr #[]))
@@ -276,6 +348,6 @@ def handle (j : Json) : E String := do
       (if denseSees badBreakdown B then ["gmres-krylov-breakdown"] else [])
     let left := if direct then
         s!",\"rmm\":{showMat kl n (B.rmm EX kl XL).f},\"T\":{showMat n n (B.tdT EX).f}" else ""
-    pure ("{" ++ pre ++ s!",\"code\":\{\"rows\":{B.rows},\"cols\":{B.cols},\"dtype\":\"{B.dtype.toString}\",\"skel\":{invSkel B},\"direct\":{direct},\"inv_ok\":{invOk},\"res_clauses\":{showStrs (if B.scalarTimesAnn then ["scalar-times-annotated"] else [])},\"mm_clauses\":{showStrs cl},\"dense_clauses\":{showStrs dcl},\"dense\":{showMat n n (B.td EX).f},\"den\":{showMat n n dn},\"mm\":{showMat n k (B.mm EX k X).f}{left}}," ++ specS ++ "}")
+    pure ("{" ++ pre ++ s!",\"code\":\{\"rows\":{B.rows},\"cols\":{B.cols},\"dtype\":\"{B.dtype.toString}\",\"skel\":{invSkel B},\"solvers\":{showSolvers B},\"direct\":{direct},\"inv_ok\":{invOk},\"contracts_ok\":{atAlgNodes (nodeContractOk alg) alg A A},\"lapack_agree\":{atAlgNodes (nodeAgree alg) alg A A},\"res_clauses\":{showStrs (if B.scalarTimesAnn then ["scalar-times-annotated"] else [])},\"mm_clauses\":{showStrs cl},\"dense_clauses\":{showStrs dcl},\"dense\":{showMat n n (B.td EX).f},\"den\":{showMat n n dn},\"mm\":{showMat n k (B.mm EX k X).f}{left}}," ++ specS ++ "}")
 
 def main : IO Unit := driverMain handle
